@@ -27,8 +27,8 @@ CLAIMED.update({
     "C07": {"engine": "mir-smt", "design_ref": "DESIGN.md §4 C07", "technique": "symbolic execution of rustc MIR of the Session window functions, decided by z3 and cvc5 (bit-vector SMT) over all 32-bit values",
             "text": "For all 32-bit counter/window values: the send step advances next-outgoing-id by one and shrinks the remote-incoming-window by one; the send step is only reachable with the window open (every call site, loops as inductive steps); a held-back transfer is queued and leaves the counters untouched; the flow recompute equals next-incoming-id+incoming-window-next-outgoing-id in RFC-1982 serial arithmetic; the window invariant is inductive; incoming transfers/begin/flow update next-incoming-id as specified; outgoing flows report exactly the counters. Multi-link interleavings and the engine task are outside.",
             "note": _NOTE_M},
-    "C08": {"engine": "kani", "design_ref": "DESIGN.md §4 C08", "technique": "bounded model checking (Kani/CBMC) of LinkFlowState<Sender> step functions over all 32-bit values",
-            "text": "One step from an arbitrary sender flow state, all 32-bit values: link-credit follows the spec formula in serial arithmetic (unset delivery-count/link-credit handled), drain consumes all credit and answers with a zero-credit flow, echo is honoured, a delivery consumes exactly one credit and is refused at zero credit. The lost-wake-up clause is NOT decided in the quick tier (thorough-tier harness over tokio::Notify does not terminate within 40 min, see DESIGN).",
+    "C08": {"engine": "kani+mir-smt", "design_ref": "DESIGN.md §4 C08", "technique": "bounded model checking (Kani/CBMC) of LinkFlowState<Sender> step functions over all 32-bit values; MIR->SMT (z3+cvc5) symbolic schedule exploration of the credit waiter",
+            "text": "One step from an arbitrary sender flow state, all 32-bit values: link-credit follows the spec formula in serial arithmetic (unset delivery-count/link-credit handled), drain consumes all credit and answers with a zero-credit flow, echo is honoured, a delivery consumes exactly one credit and is refused at zero credit. Lost wake-up: the MIR of the real waiter coroutine (consume + consume_link_credit) is executed symbolically against tokio::Notify's documented contract with the grant placed at every call boundary of the waiter (including the cfg schedule_point between the failed check and the wait) and z3+cvc5 show the next poll completes; counterexamples are replayed natively through the schedule hook with the real tokio Notify.",
             "note": _NOTE + " Stubs: parking_lot RawRwLock slow paths panic (never reached)."},
     "C09": {"engine": "kani", "design_ref": "DESIGN.md §4 C09", "technique": "bounded model checking (Kani/CBMC) of LinkFlowState<Receiver> step functions over all 32-bit values",
             "text": "One step from an arbitrary receiver flow state: a transfer is accepted iff credit >= 1 (else transfer-limit-exceeded with the state unchanged), accepted => credit-1 and delivery-count+1; the sender's flow is mirrored (delivery-count, available) without touching the issued credit; flows report exactly the stored state. Auto-credit replenishment timing is outside.",
